@@ -245,24 +245,36 @@ func TestVerif_C20_Windows(t *testing.T) {
 		"counter steps small, medium, stall, jump (2^32..2^50), reset to a smaller value, reset to 0, first observations of 0, start values up to 2^61, wrap-around across 2^64 with small true increases; " +
 		"the average is also read between sampling instants. distinct = meter x mode x observed events (windows that fired, stall/backwards zeros, wrap crossing, zero observations)")
 	n := m.N(20000, 2000000)
-	m.Require("evaluations", int64(n))
-	m.Require("observations", int64(n)*20)
-	m.Require("sampled_10s", int64(n))
-	m.Require("sampled_30s", int64(n))
-	m.Require("sampled_300s", int64(n/2))
-	m.Require("nonzero_rate_300s_checked", int64(n/4))
-	m.Require("backwards_or_stall_yielded_zero", int64(n/2))
-	m.Require("wrap_crossings_with_positive_rate", int64(n/50))
-	m.Require("refusals_before_start", int64(n)*4)
-	m.Require("average_nonzero_checked", int64(n))
-	m.Require("zero_first_histories", int64(n/20))
-	m.Require("zero_mid_observations", int64(n/20))
+	only := -1 // under `check.py --replay`: the recorded history only, no mandatory minimums
+	if v, ok := m.ReplayField("case").(float64); ok {
+		only = int(v)
+	}
+	require := func(name string, min int64) {
+		if only == -1 {
+			m.Require(name, min)
+		}
+	}
+	require("evaluations", int64(n))
+	require("observations", int64(n)*20)
+	require("sampled_10s", int64(n))
+	require("sampled_30s", int64(n))
+	require("sampled_300s", int64(n/2))
+	require("nonzero_rate_300s_checked", int64(n/4))
+	require("backwards_or_stall_yielded_zero", int64(n/2))
+	require("wrap_crossings_with_positive_rate", int64(n/50))
+	require("refusals_before_start", int64(n)*4)
+	require("average_nonzero_checked", int64(n))
+	require("zero_first_histories", int64(n/20))
+	require("zero_mid_observations", int64(n/20))
 	type out struct {
 		sig, detail string
 		replay      interface{}
 	}
 	outs := make([][]out, n)
 	mon.Parallel(n, func(w, idx int) {
+		if only != -1 && idx != only {
+			return
+		}
 		r := m.Rand("history", idx)
 		steps, mode, wrap, nsJitter := verifHistory(r)
 		mt := verifNewMeter(r.Bool())
@@ -448,6 +460,8 @@ func TestVerif_C20_Windows(t *testing.T) {
 					lo, hi := want*el/(el+1e6), math.Inf(1)
 					if el > 1e6 {
 						hi = want * el / (el - 1e6)
+					} else {
+						lo = 0 // less than the resolution has passed: indistinguishable from "no time"
 					}
 					if got < lo*(1-1e-9) || got > hi*(1+1e-9) {
 						add("c20:average-differs:increase+ns-times", "average reads %v, the statement gives %v (accepted %v..%v for 1 ms resolution)", got, want, lo, hi)
